@@ -65,6 +65,21 @@ func RunProperty(repo, tier, prop string, seed int64) (*core.Report, error) {
 	return rep, nil
 }
 
+// RunOn evaluates one property's rules on an already loaded program.
+func RunOn(ctx *core.Ctx, prop string) *core.Report {
+	rep := core.NewReport(prop, ctx.Tier, 0)
+	fn := Lookup(prop)
+	func() {
+		defer func() {
+			if r := recover(); r != nil {
+				rep.Undecided(prop+".PANIC", "checker", "", fmt.Sprintf("checker panicked: %v\n%s", r, debug.Stack()))
+			}
+		}()
+		fn(ctx, rep)
+	}()
+	return rep
+}
+
 func LoadMutants(verif string) ([]Mutant, error) {
 	files, _ := filepath.Glob(filepath.Join(verif, "mutants", "c[0-9][0-9].json"))
 	sort.Strings(files)
